@@ -26,6 +26,7 @@ import SqlLineage.Model.Shape
 import SqlLineage.Spec.Tables
 import SqlLineage.Spec.Agreement
 import SqlLineage.Props.C01
+import SqlLineage.Proofs.ShapeLemmas
 
 namespace SqlLineage.Props.C09
 open SqlLineage Ast Walk
@@ -158,6 +159,29 @@ theorem select_clause_arity (its : List Item) : (itemShapes its).length = its.le
   induction its with
   | nil => simp [itemShapes]
   | cons i r ih => cases i; simp [itemShapes, ih]
+
+section vocabulary
+open SqlLineage.Proofs.ShapeLemmas SqlLineage.Shape.Shape
+
+/-- **the shape only contains segment types of a fixed vocabulary** — for every core statement, at any size -/
+theorem shape_vocabulary (s : Stmt) (sh : Shape) (h : shapeFile s = some sh) : ∀ t ∈ types sh, t ∈ vocab := by
+  unfold shapeFile at h
+  cases hs : shapeStmt s with
+  | none => simp [hs] at h
+  | some st =>
+    simp only [hs, Option.map_some, Option.some.injEq] at h
+    subst h
+    exact ok_node (by decide) (okL_one (ok_node (by decide) (okL_one (ok_shapeStmt s st hs))))
+
+/-- … and the vocabulary contains none of the segment types the normalisation drops or rewrites: the model shape is a fixed
+    point of the filter the harness applies to the real tree (no keyword / symbol / whitespace / comment / meta segment, no
+    child of the opaque `function_name` / `data_type`, none of the dialect wrappers the allow-list removes) -/
+theorem vocab_excludes_dropped :
+    ∀ t ∈ ["keyword", "symbol", "whitespace", "newline", "comment", "inline_comment", "block_comment", "indent", "dedent",
+      "end_of_file", "raw", "word", "batch", "tuple", "object_reference", "view_reference", "create_table_as_statement",
+      "create_table_as_select_statement", "identifier_list"], t ∉ vocab := by decide
+
+end vocabulary
 
 /-! ### statement‑type renamings the shape correspondence allow‑lists, checked against the REGENERATED dispatch table -/
 
